@@ -5,4 +5,4 @@ package chain
 import nodekeeper "github.com/SaoNetwork/sao/x/node/keeper"
 
 // volatile process state of the code under test (needs the repository's `verif` hooks)
-func volatileShares() (string, string) { return nodekeeper.VerifSharesBeforeModified() }
+func volatileShares() (string, string) { return nodekeeper.VerifSharesBeforeModified(), "" }
